@@ -241,6 +241,7 @@ pub fn scenarios(thorough: bool) -> Vec<Scenario> {
     v.push(pair_conflict_scenario("pair-edit-hi-vs-delete", 15, 3, &[9], if thorough { 4 } else { 3 }, &[Op::Resolve(1, 0, 0), Op::Resolve(1, 1, 1), Op::Unstage(1)]));
     // depth 2 in both tiers: every pair of operations from every prepared state
     v.extend(cross_scenarios_depth(2));
+    v.extend(combo_scenarios(thorough));
     v
 }
 
